@@ -46,6 +46,18 @@ def basic_factors(draw, c, min_n=1):
     return out
 
 
+def same_different(d, arg_level_names):
+    """Make a two-level Transition / Window(width 2) over one argument the canonical 'repeat' factor: level 0 when the two
+    trials agree, level 1 when they differ.  A random table over a crossed argument is unsatisfiable three times out of
+    four (some (argument level, derived level) pair has no realising pair of trials); this one never is."""
+    if len(d["args"]) != 1 or d.get("width") != 2 or d.get("stride", 1) != 1 or len(d["levels"]) != 2:
+        return d
+    for p_ in arg_level_names:
+        for q_ in arg_level_names:
+            d["overrides"][S.key_json([[p_, q_]])] = 0 if p_ == q_ else 1
+    return d
+
+
 @st.composite
 def derived_factors(draw, c, factors):
     out = []
@@ -77,6 +89,8 @@ def derived_factors(draw, c, factors):
         d["else_last"] = bool(c["else_level"] and draw(st.integers(0, 3)) == 0)
         d["salt"] = draw(st.integers(0, 10 ** 6))
         d["overrides"] = {}
+        if kind != "within" and len(args) == 1 and args[0] in names and draw(st.integers(0, 2)) == 0:
+            same_different(d, [l[0] for f in factors if f["name"] == args[0] for l in f["levels"]])
         out.append(d)
     return out
 
@@ -386,6 +400,8 @@ def _scenario_spec_raw(draw, c=None):
         d = {"name": name, "args": args, "kind": kind, "width": width, "stride": 1, "start": None,
              "levels": [["%s%d" % (name.lower(), j), 1] for j in range(n)], "else_last": draw(st.integers(0, 3)) == 0,
              "salt": draw(st.integers(0, 10 ** 6)), "overrides": {}}
+        if kind != "within" and len(args) == 1 and args[0] in ("A", "B") and draw(st.integers(0, 2)):
+            same_different(d, [l[0] for l in (A if args[0] == "A" else B)["levels"]])
         derived.append(d)
         return d
     if "crossed-within-uncrossed-source" in feats:
@@ -575,6 +591,8 @@ def _round_skeleton_raw(draw, c=None):
         derived.append({"name": "Y", "args": [draw(st.sampled_from(["A", "B"]))], "kind": draw(st.sampled_from(["transition", "transition", "window"])),
                         "width": 2, "stride": 1, "start": None, "levels": [["y0", 1], ["y1", 1]], "else_last": draw(st.booleans()),
                         "salt": draw(st.integers(0, 10 ** 6)), "overrides": {}})
+        if draw(st.integers(0, 3)):
+            same_different(derived[-1], [l[0] for l in (A if derived[-1]["args"][0] == "A" else B)["levels"]])
         crossing = crossing + ["Y"] if draw(st.booleans()) else ["Y"] + crossing
     names = ["A", "B"] + [d["name"] for d in derived]
     spec = {"factors": [A, B], "derived": derived}
